@@ -730,10 +730,9 @@ func (s *vSim) ready(n *vNode) {
 		}
 		s.net[msgKey(m)] = m
 	}
-	if pb.IsEmptySnapshot(ud.Snapshot) {
-		for _, e := range ud.CommittedEntries {
-			n.alist = append(n.alist, e)
-		}
+	// entries committed after a restored snapshot may be handed out in the same Update
+	for _, e := range ud.CommittedEntries {
+		n.alist = append(n.alist, e)
 	}
 	n.peer.Commit(ud)
 	s.fixRto(n)
@@ -954,13 +953,89 @@ type simOpts struct {
 	crash    bool
 }
 
-// one randomized schedule. The generator alternates between calm phases (ticks,
-// deliveries, readies, applies) and chaos (drops, duplicates, partitions, crashes).
+// phase: a stretch of the schedule with a bias, so that the dangerous regions are
+// reached much more often than under a uniform choice: an isolated (old) leader that
+// keeps accepting proposals, a lagging follower that needs a snapshot, a replica that
+// does not apply / does not save for a while, bursts of membership changes.
+type phase struct {
+	left      int
+	isolated  uint64 // replica cut off (0 = none)
+	delay     bool   // messages on cut links are kept (delivered after heal) rather than lost
+	noApply   uint64 // replica whose apply worker is stalled
+	noReady   uint64 // replica whose step worker does not get to save/send
+	wPropose  int
+	wCC       int
+	wSnap     int
+	wTickOne  uint64 // replica that is ticked preferentially
+	wDeliver  int
+	wRead     int
+	wXfer     int
+}
+
+func (s *vSim) newPhase(o simOpts) phase {
+	ph := phase{left: 15 + s.rng.Intn(60), wPropose: 60, wCC: 15, wSnap: 8, wDeliver: 250, wRead: 40, wXfer: 6}
+	ups := s.upNodes()
+	pick := func() uint64 {
+		if len(ups) == 0 {
+			return 0
+		}
+		return ups[s.rng.Intn(len(ups))].id
+	}
+	pickLeader := func() uint64 {
+		if ls := s.leaders(); len(ls) > 0 && s.rng.Intn(10) < 7 {
+			return ls[s.rng.Intn(len(ls))].id
+		}
+		return pick()
+	}
+	if s.rng.Intn(100) >= o.chaos {
+		return ph
+	}
+	switch s.rng.Intn(8) {
+	case 0, 1: // isolate (preferably the leader), it keeps getting proposals
+		ph.isolated = pickLeader()
+		ph.delay = s.rng.Intn(2) == 0
+		ph.wPropose = 120
+		ph.wTickOne = pick()
+	case 2: // lagging follower: isolate a non-leader, push the log forward, snapshot + compact
+		ph.isolated = pick()
+		ph.delay = s.rng.Intn(3) == 0
+		ph.wPropose = 150
+		ph.wSnap = 60
+		ph.left += 30
+	case 3: // apply lag + membership changes + transfers
+		ph.noApply = pick()
+		ph.wCC = 80
+		ph.wXfer = 40
+	case 4: // batching: a replica handles many inputs before it saves/sends
+		ph.noReady = pick()
+		ph.wDeliver = 400
+	case 5: // election storm
+		ph.wTickOne = pick()
+		ph.wDeliver = 120
+	case 6: // read heavy with a cut-off leader
+		ph.isolated = pickLeader()
+		ph.delay = true
+		ph.wRead = 200
+	case 7: // membership burst
+		ph.wCC = 120
+		ph.noApply = pick()
+	}
+	return ph
+}
+
+func (s *vSim) linkCut(ph *phase, from, to uint64) bool {
+	return ph.isolated != 0 && (from == ph.isolated || to == ph.isolated)
+}
+
+// one randomized schedule
 func (s *vSim) randomRun(o simOpts) {
 	s.emit(jEvent{A: "Init"}, nil)
 	nInit := 1 + s.rng.Intn(3)
 	if s.rng.Intn(4) > 0 {
 		nInit = 3
+	}
+	if s.rng.Intn(6) == 0 {
+		nInit = 5
 	}
 	voters := []uint64{}
 	for i := 1; i <= nInit; i++ {
@@ -970,173 +1045,201 @@ func (s *vSim) randomRun(o simOpts) {
 		s.boot(id, voters)
 	}
 	nextID := uint64(nInit + 1)
-	pendingJoin := map[uint64]string{}
-	_ = pendingJoin
+	ph := phase{left: 20 + s.rng.Intn(40), wPropose: 60, wCC: 15, wSnap: 8, wDeliver: 250, wRead: 40, wXfer: 6}
 	for s.step < o.steps {
+		if ph.left <= 0 {
+			ph = s.newPhase(o)
+		}
+		ph.left--
 		ups := s.upNodes()
-		c := s.rng.Intn(1000)
+		if len(ups) == 0 {
+			downs := []*vNode{}
+			for _, id := range s.ids {
+				if n := s.nodes[id]; n != nil && n.started && !n.up {
+					downs = append(downs, n)
+				}
+			}
+			if len(downs) == 0 {
+				return
+			}
+			s.restart(downs[s.rng.Intn(len(downs))])
+			continue
+		}
+		// messages on cut links: lost unless the phase delays them
+		deliverable := []pb.Message{}
+		for _, m := range s.sortedNet() {
+			if s.linkCut(&ph, m.From, m.To) {
+				if !ph.delay {
+					s.drop(m)
+				}
+				continue
+			}
+			deliverable = append(deliverable, m)
+		}
+		wTick, wReady, wApply := 180, 230, 140
+		wDrop, wCrash, wJoin, wStatus := 0, 0, 10, 6
 		chaos := s.rng.Intn(100) < o.chaos
-		switch {
-		case c < 250: // deliver
-			ms := s.sortedNet()
-			if len(ms) > 0 {
-				m := ms[s.rng.Intn(len(ms))]
+		if chaos {
+			wDrop = 25
+			if o.crash {
+				wCrash = 15
+			}
+		}
+		wCC, wSnap := 0, 0
+		if o.withCC {
+			wCC = ph.wCC
+		}
+		if o.withSnap {
+			wSnap = ph.wSnap
+		}
+		ws := []int{ph.wDeliver, wReady, wApply, wTick, ph.wPropose, ph.wRead, wDrop, wCrash, wCC, wJoin, wSnap, ph.wXfer, wStatus}
+		tot := 0
+		for _, w := range ws {
+			tot += w
+		}
+		c := s.rng.Intn(tot)
+		k := 0
+		for c >= ws[k] {
+			c -= ws[k]
+			k++
+		}
+		switch k {
+		case 0: // deliver
+			if len(deliverable) > 0 {
+				m := deliverable[s.rng.Intn(len(deliverable))]
 				dup := chaos && s.rng.Intn(6) == 0
 				s.deliver(m, dup)
 			}
-		case c < 480: // ready
+		case 1: // ready
 			cands := []*vNode{}
 			for _, n := range ups {
-				if n.peer.HasUpdate(true) {
+				if n.id != ph.noReady && n.peer.HasUpdate(true) {
 					cands = append(cands, n)
 				}
 			}
 			if len(cands) > 0 {
 				s.ready(cands[s.rng.Intn(len(cands))])
 			}
-		case c < 620: // apply
+		case 2: // apply
 			cands := []*vNode{}
 			for _, n := range ups {
-				if n.aq != nil || len(n.alist) > 0 {
+				if n.id != ph.noApply && (n.aq != nil || len(n.alist) > 0) {
 					cands = append(cands, n)
 				}
 			}
 			if len(cands) > 0 {
 				s.applyOne(cands[s.rng.Intn(len(cands))])
 			}
-		case c < 800: // tick
-			if len(ups) > 0 {
-				n := ups[s.rng.Intn(len(ups))]
-				k := 1
-				if s.rng.Intn(5) == 0 {
-					k = 1 + s.rng.Intn(int(s.et))
-				}
-				for i := 0; i < k; i++ {
-					s.tick(n)
+		case 3: // tick
+			n := ups[s.rng.Intn(len(ups))]
+			if ph.wTickOne != 0 && s.rng.Intn(3) > 0 {
+				if x := s.nodes[ph.wTickOne]; x != nil && x.up {
+					n = x
 				}
 			}
-		case c < 860: // propose
-			if len(ups) > 0 {
-				n := ups[s.rng.Intn(len(ups))]
-				if ls := s.leaders(); len(ls) > 0 && s.rng.Intn(3) > 0 {
-					n = ls[s.rng.Intn(len(ls))]
-				}
-				if n.peer.raft.state != witness {
-					s.nextVal++
-					s.propose(n, s.nextVal)
-				}
+			cnt := 1
+			if s.rng.Intn(5) == 0 {
+				cnt = 1 + s.rng.Intn(int(s.et))
 			}
-		case c < 900: // read index
-			if len(ups) > 0 {
-				n := ups[s.rng.Intn(len(ups))]
-				if n.peer.raft.state != witness {
-					s.nextCtx++
-					s.readIndex(n, s.nextCtx)
-				}
+			for i := 0; i < cnt; i++ {
+				s.tick(n)
 			}
-		case c < 925: // drop
-			ms := s.sortedNet()
-			if len(ms) > 0 && chaos {
-				s.drop(ms[s.rng.Intn(len(ms))])
+		case 4: // propose
+			n := ups[s.rng.Intn(len(ups))]
+			if ls := s.leaders(); len(ls) > 0 && s.rng.Intn(4) > 0 {
+				n = ls[s.rng.Intn(len(ls))]
 			}
-		case c < 940: // partition toggle
-			if chaos {
-				if len(s.blocked) > 0 && s.rng.Intn(2) == 0 {
-					s.blocked = map[[2]uint64]bool{}
-				} else if len(s.ids) > 1 {
-					a := s.ids[s.rng.Intn(len(s.ids))]
-					for _, b := range s.ids {
-						if a != b {
-							s.blocked[[2]uint64{a, b}] = true
-							if s.rng.Intn(3) > 0 {
-								s.blocked[[2]uint64{b, a}] = true
-							}
-						}
-					}
-					// messages already in flight on blocked links are lost
-					for _, m := range s.sortedNet() {
-						if s.blocked[[2]uint64{m.From, m.To}] {
-							s.drop(m)
-						}
-					}
-				}
+			if x := s.nodes[ph.isolated]; x != nil && x.up && s.rng.Intn(2) == 0 {
+				n = x
 			}
-		case c < 955: // crash / restart
-			if o.crash {
-				downs := []*vNode{}
-				for _, id := range s.ids {
-					if n := s.nodes[id]; n != nil && n.started && !n.up {
-						downs = append(downs, n)
-					}
-				}
-				if len(downs) > 0 && s.rng.Intn(2) == 0 {
-					s.restart(downs[s.rng.Intn(len(downs))])
-				} else if len(ups) > 0 && chaos {
-					s.crash(ups[s.rng.Intn(len(ups))])
-				}
+			if n.peer.raft.state != witness {
+				s.nextVal++
+				s.propose(n, s.nextVal)
 			}
-		case c < 970: // config change
-			if o.withCC && len(ups) > 0 {
-				n := ups[s.rng.Intn(len(ups))]
-				if ls := s.leaders(); len(ls) > 0 && s.rng.Intn(4) > 0 {
-					n = ls[s.rng.Intn(len(ls))]
-				}
-				if n.peer.raft.state == witness {
-					break
-				}
-				r := s.rng.Intn(10)
-				switch {
-				case r < 4 && int(nextID) <= o.maxN:
-					op := []uint64{opAddNode, opAddNonVoting, opAddWitness}[s.rng.Intn(3)]
-					id := nextID
-					nextID++
-					pendingJoin[id] = ""
-					s.proposeCC(n, op, id)
-				case r < 6:
-					// promote a non-voting replica / re-add something (possibly invalid)
-					id := s.ids[s.rng.Intn(len(s.ids))]
-					s.proposeCC(n, opAddNode, id)
-				case r < 9:
-					id := s.ids[s.rng.Intn(len(s.ids))]
-					s.proposeCC(n, opRemove, id)
-				default:
-					id := s.ids[s.rng.Intn(len(s.ids))]
-					s.proposeCC(n, []uint64{opAddNonVoting, opAddWitness}[s.rng.Intn(2)], id)
-				}
+		case 5: // read index
+			n := ups[s.rng.Intn(len(ups))]
+			if x := s.nodes[ph.isolated]; x != nil && x.up && s.rng.Intn(2) == 0 {
+				n = x
 			}
-		case c < 980: // join of a replica whose add was proposed
+			if n.peer.raft.state != witness {
+				s.nextCtx++
+				s.readIndex(n, s.nextCtx)
+			}
+		case 6: // drop
+			if len(deliverable) > 0 {
+				s.drop(deliverable[s.rng.Intn(len(deliverable))])
+			}
+		case 7: // crash / restart
+			downs := []*vNode{}
 			for _, id := range s.ids {
-				// a replica is started with the role under which the shard admitted it
-				if k, ok := s.firstKind[id]; ok && s.nodes[id] == nil && s.rng.Intn(2) == 0 {
-					s.join(id, k)
+				if n := s.nodes[id]; n != nil && n.started && !n.up {
+					downs = append(downs, n)
+				}
+			}
+			if len(downs) > 0 && s.rng.Intn(2) == 0 {
+				s.restart(downs[s.rng.Intn(len(downs))])
+			} else {
+				s.crash(ups[s.rng.Intn(len(ups))])
+			}
+		case 8: // config change
+			n := ups[s.rng.Intn(len(ups))]
+			if ls := s.leaders(); len(ls) > 0 && s.rng.Intn(5) > 0 {
+				n = ls[s.rng.Intn(len(ls))]
+			}
+			if n.peer.raft.state == witness {
+				break
+			}
+			r := s.rng.Intn(10)
+			switch {
+			case r < 5 && int(nextID) <= o.maxN:
+				op := []uint64{opAddNode, opAddNode, opAddNonVoting, opAddWitness}[s.rng.Intn(4)]
+				id := nextID
+				nextID++
+				s.proposeCC(n, op, id)
+			case r < 7:
+				s.proposeCC(n, opAddNode, s.ids[s.rng.Intn(len(s.ids))])
+			case r < 9:
+				s.proposeCC(n, opRemove, s.ids[s.rng.Intn(len(s.ids))])
+			default:
+				s.proposeCC(n, []uint64{opAddNonVoting, opAddWitness}[s.rng.Intn(2)], s.ids[s.rng.Intn(len(s.ids))])
+			}
+		case 9: // a replica is started with the role under which the shard admitted it
+			for _, id := range s.ids {
+				if kd, ok := s.firstKind[id]; ok && s.nodes[id] == nil {
+					s.join(id, kd)
 					break
 				}
 			}
-		case c < 988: // snapshot / compaction
-			if o.withSnap && len(ups) > 0 {
-				n := ups[s.rng.Intn(len(ups))]
-				if s.canSnapshot(n) && s.rng.Intn(2) == 0 {
-					s.snapshot(n)
-				} else if n.db.snapshot.Index > n.db.markerIndex {
-					i := n.db.markerIndex + 1 + uint64(s.rng.Intn(int(n.db.snapshot.Index-n.db.markerIndex)))
-					if s.canCompact(n, i) {
-						s.compact(n, i)
-					}
+		case 10: // snapshot / compaction
+			n := ups[s.rng.Intn(len(ups))]
+			if ls := s.leaders(); len(ls) > 0 && s.rng.Intn(2) == 0 {
+				n = ls[s.rng.Intn(len(ls))]
+			}
+			if s.canSnapshot(n) && s.rng.Intn(2) == 0 {
+				s.snapshot(n)
+			} else if n.db.snapshot.Index > n.db.markerIndex {
+				i := n.db.snapshot.Index
+				if s.rng.Intn(3) == 0 {
+					i = n.db.markerIndex + 1 + uint64(s.rng.Intn(int(n.db.snapshot.Index-n.db.markerIndex)))
+				}
+				if s.canCompact(n, i) {
+					s.compact(n, i)
 				}
 			}
-		case c < 994: // leader transfer
-			if len(ups) > 0 {
-				n := ups[s.rng.Intn(len(ups))]
-				if n.peer.raft.state == leader || n.peer.raft.state == follower {
-					s.transfer(n, s.ids[s.rng.Intn(len(s.ids))])
-				}
+		case 11: // leader transfer
+			n := ups[s.rng.Intn(len(ups))]
+			if ls := s.leaders(); len(ls) > 0 && s.rng.Intn(4) > 0 {
+				n = ls[s.rng.Intn(len(ls))]
 			}
-		default: // snapshot status / unreachable reports at a leader
+			if n.peer.raft.state == leader || n.peer.raft.state == follower {
+				s.transfer(n, s.ids[s.rng.Intn(len(s.ids))])
+			}
+		case 12: // snapshot status / unreachable reports at a leader
 			if ls := s.leaders(); len(ls) > 0 {
 				n := ls[s.rng.Intn(len(ls))]
 				from := s.ids[s.rng.Intn(len(s.ids))]
 				if from != n.id {
-					if s.rng.Intn(2) == 0 {
+					if s.rng.Intn(3) > 0 {
 						s.snapStatus(n, from, s.rng.Intn(3) == 0)
 					} else {
 						s.unreachable(n, from)
@@ -1192,7 +1295,7 @@ func TestVerifRsim(t *testing.T) {
 		tid := first + i
 		s := newSim(t, seed*1000003+int64(tid), w, tid, 5)
 		s.preVote, s.checkQ = preVote, checkQ
-		o := simOpts{steps: steps, maxN: 3 + s.rng.Intn(3), chaos: []int{0, 10, 30, 60}[s.rng.Intn(4)],
+		o := simOpts{steps: steps, maxN: 3 + s.rng.Intn(3), chaos: []int{0, 20, 50, 80}[s.rng.Intn(4)],
 			withCC: s.rng.Intn(3) > 0, withSnap: s.rng.Intn(3) > 0, crash: s.rng.Intn(2) == 0}
 		func() {
 			defer func() {
